@@ -174,6 +174,18 @@ def decide(pid, tier, seed, args):
     results = smt.solve_vcs(vcs)
     solve_wall = time.time() - t1
     obs = aggregate(vcs, results)
+    # ---- retry: obligations left `unknown` are solved again, few at a time and with tripled budgets, so that a
+    #      loaded machine cannot turn a proved obligation into an undecided one
+    retry = [i for i, (vc, r) in enumerate(zip(vcs, results)) if r["verdict"] == "unknown"]
+    if retry and len(retry) <= 40:
+        for i in retry:
+            vcs[i].meta.update(q_fast=20, q_slow=450, z3_t=450, cvc5_t=450, z3_quick=10, z3_sliced=15)
+        again = smt.solve_vcs([vcs[i] for i in retry], jobs=4)
+        for i, r in zip(retry, again):
+            if r["verdict"] in ("unsat", "sat"):
+                r["retried"] = True
+                results[i] = r
+        obs = aggregate(vcs, results)
     # ---- vacuity probes: the entry hypotheses of each function / lemma must be satisfiable
     probes = []
     seen = set()
